@@ -160,12 +160,18 @@ fn check_bucket(obs: &mut Obs, newest: usize, p: usize, rng: &mut Rng, label: &s
         obs.count("buckets_stamped_ahead_of_the_wall_clock", 1);
     }
     let mut vols = std::collections::BTreeMap::new();
+    // spacing between consecutive directories' first chunks: minutes as in production, or down to
+    // a millisecond (upload times are only required to be distinct)
+    let spacing: i64 = *rng.pick(&[300_000i64, 300_000, 1_000, 400, 1]);
+    if spacing < 1_000 {
+        obs.count("buckets_with_sub_second_spacing", 1);
+    }
     for j in 0..p {
         let v = (newest + 999 - 1 - j) % 999 + 1; // going backwards from the newest, 1..=999
-        let when = t0 - (j as i64) * 300_000 - rng.below(200_000) as i64;
+        let when = t0 - (j as i64) * spacing - if spacing >= 300_000 { rng.below(200_000) as i64 } else { 0 };
         let c = crate::cal::civil_from_epoch_ms(when);
         let name = format!("{:04}{:02}{:02}-{:02}{:02}{:02}-001-S", c.year, c.month, c.day, c.hour, c.minute, c.second);
-        let mut objs = vec![Obj { key: format!("{}/{}/{}", site, v, name), last_modified: s3sim::rfc3339(when, j % 2 == 0), size: "1234".into() }];
+        let mut objs = vec![Obj { key: format!("{}/{}/{}", site, v, name), last_modified: s3sim::rfc3339(when, spacing < 1_000 || j % 2 == 0), size: "1234".into() }];
         // later chunks of the same volume (must not be the one consulted: max-keys=1 returns the first)
         if j % 3 == 0 {
             objs.push(Obj { key: format!("{}/{}/{}", site, v, name.replace("-001-S", "-002-I")), last_modified: s3sim::rfc3339(when + 5_000_000_000, false), size: "99".into() });
